@@ -15,10 +15,11 @@ import (
 	"symgo/sym"
 )
 
-const (
-	verifDir   = "/verif"
-	harnessDir = "/verif/harness"
-)
+const verifDir = "/verif"
+
+// harnessDir is /verif/harness; VERIF_HARNESS points a run at a frozen copy
+// (long thorough sweeps while the harnesses are being edited).
+var harnessDir = envOr("VERIF_HARNESS", "/verif/harness")
 
 // repoDir is /repo; VERIF_REPO redirects a run to a scratch worktree and
 // VERIF_OUT its evidence / replay files (used only to evaluate seeded changes
